@@ -120,6 +120,59 @@ proof fn lemma_rest(out: Seq<Attribution>, n0: int, a: Seq<Attribution>, lo: int
     lemma_sound_widen(out, n0, a, lo, j0, a.len() as int, p, q, len);
     reveal(eq_complete);
 }
+
+// ---------------------------------------------------------------- vocabulary for the moved-insertion fill (region ta_insert_moved)
+/// merged move targets inside one insertion: non-empty, sorted, strictly separated (what the merge loop above the region produces)
+pub open spec fn moved_sep(ms: Seq<(usize, usize)>) -> bool {
+    &&& forall|i: int| 0 <= i < ms.len() ==> (#[trigger] ms[i]).0 < ms[i].1
+    &&& forall|i: int, j: int| 0 <= i < j < ms.len() ==> (#[trigger] ms[i]).1 < (#[trigger] ms[j]).0
+}
+/// offset x of the insertion is the target of a detected move (among the first n merged ranges)
+pub open spec fn moved_has(ms: Seq<(usize, usize)>, n: int, x: int) -> bool { exists|i: int| 0 <= i < n && (#[trigger] ms[i]).0 <= x < ms[i].1 }
+/// absolute position x of the new text is inside a range appended at or after index n0
+pub open spec fn fill_has(v: Seq<Attribution>, n0: int, x: int) -> bool { exists|k: int| n0 <= k < v.len() && (#[trigger] v[k]).start <= x < v[k].end }
+/// appended ranges: reporting author, non-empty, inside [q, q+upto], sorted and disjoint
+pub open spec fn fill_wf(v: Seq<Attribution>, n0: int, q: int, upto: int, author: Seq<char>, ts: u128) -> bool {
+    &&& forall|k: int| n0 <= k < v.len() ==> q <= (#[trigger] v[k]).start < v[k].end <= q + upto && v[k].author_id@ == author && v[k].ts == ts
+    &&& forall|i: int, j: int| n0 <= i < j < v.len() ==> (#[trigger] v[i]).end <= (#[trigger] v[j]).start
+}
+proof fn lemma_fill_push(v: Seq<Attribution>, n0: int, a: Attribution, x: int)
+    requires 0 <= n0 <= v.len()
+    ensures fill_has(v.push(a), n0, x) <==> (fill_has(v, n0, x) || a.start <= x < a.end)
+{
+    let w = v.push(a);
+    if fill_has(w, n0, x) {
+        let k = choose|k: int| n0 <= k < w.len() && (#[trigger] w[k]).start <= x < w[k].end;
+        if k < v.len() { assert(w[k] == v[k]); assert(n0 <= k < v.len() && v[k].start <= x < v[k].end); } else { assert(w[k] == a); }
+    }
+    if fill_has(v, n0, x) {
+        let k = choose|k: int| n0 <= k < v.len() && (#[trigger] v[k]).start <= x < v[k].end;
+        assert(w[k] == v[k]); assert(n0 <= k < w.len() && w[k].start <= x < w[k].end);
+    }
+    if a.start <= x < a.end { let k = v.len() as int; assert(w[k] == a); assert(n0 <= k < w.len() && w[k].start <= x < w[k].end); }
+}
+proof fn lemma_moved_step(ms: Seq<(usize, usize)>, k: int, x: int)
+    requires 0 <= k < ms.len()
+    ensures moved_has(ms, k + 1, x) <==> (moved_has(ms, k, x) || ms[k].0 <= x < ms[k].1)
+{
+    if moved_has(ms, k + 1, x) {
+        let i = choose|i: int| 0 <= i < k + 1 && (#[trigger] ms[i]).0 <= x < ms[i].1;
+        if i < k { assert(0 <= i < k && ms[i].0 <= x < ms[i].1); }
+    }
+    if moved_has(ms, k, x) {
+        let i = choose|i: int| 0 <= i < k && (#[trigger] ms[i]).0 <= x < ms[i].1;
+        assert(0 <= i < k + 1 && ms[i].0 <= x < ms[i].1);
+    }
+    if ms[k].0 <= x < ms[k].1 { assert(0 <= k < k + 1 && ms[k].0 <= x < ms[k].1); }
+}
+proof fn lemma_moved_ends_monotone(ms: Seq<(usize, usize)>, i: int, j: int)
+    requires moved_sep(ms), 0 <= i <= j < ms.len()
+    ensures ms[i].1 <= ms[j].1, ms[i].0 <= ms[j].0
+    decreases j - i
+{
+    if i < j { lemma_moved_ends_monotone(ms, i, j - 1); assert(ms[j - 1].1 < ms[j].0); }
+}
+
 pub open spec fn has_newline(d: Seq<u8>) -> bool { exists|i: int| 0 <= i < d.len() && d[i] == 10u8 }
 /// uninterpreted: what data_is_whitespace computes (non-empty valid UTF-8 consisting of whitespace only)
 pub uninterp spec fn is_ws_bytes(d: Seq<u8>) -> bool;
@@ -308,6 +361,112 @@ fn data_is_whitespace(data: &[u8]) -> (r_: bool)
                     prev_whitespace_delete = false;
 //@     proof { assert(new_attributions@.subrange(0, in_attrs.len() as int) =~= in_attrs); }
 //@     (new_pos, insertion_idx, prev_whitespace_delete, insertion_attr_cursor, new_attributions)
+//@ }
+//#end
+//#item file=src/authorship/attribution_tracker.rs kind=region name=ta_insert_moved in=transform_attributions from="let mut cursor = 0usize;" to="prev_whitespace_delete = false;" from_nth=0 to_nth=0 impl="AttributionTracker"
+//@ fn region_ta_insert_moved(merged: Vec<(usize, usize)>, current_author: &str, ts: u128, mut new_pos: usize, len: usize, mut insertion_idx: usize, mut prev_whitespace_delete: bool, mut new_attributions: Vec<Attribution>) -> (r_: (usize, usize, bool, Vec<Attribution>))
+//@     requires
+//@         moved_sep(merged@), new_pos + len <= usize::MAX, insertion_idx < usize::MAX,
+//@     ensures
+//@         r_.0 == new_pos + len, r_.1 == insertion_idx + 1, r_.2 == false,
+//@         prefix_kept(r_.3@, new_attributions@),
+//@         // appended ranges: by the reporting author, non-empty, inside the inserted segment, sorted and disjoint
+//@         fill_wf(r_.3@, new_attributions@.len() as int, new_pos as int, len as int, current_author@, ts),
+//@         // and they cover exactly the inserted bytes that no detected move accounts for
+//@         forall|x: int| 0 <= x < len ==> (#[trigger] fill_has(r_.3@, new_attributions@.len() as int, new_pos + x) <==> !moved_has(merged@, merged@.len() as int, x)),
+//@ {
+//@     let ghost inp = new_attributions@; let ghost n0 = new_attributions@.len() as int; let ghost q = new_pos as int; let ghost ms = merged@;
+                        let mut cursor = 0usize;
+                        //@ proof { assert(new_attributions@.subrange(0, inp.len() as int) =~= inp); }
+                        for (start, end) in it_0: merged
+                        //@     invariant
+                        //@         it_0.snapshot@.remaining() =~= ms, moved_sep(ms), q == new_pos, n0 == inp.len(), new_pos + len <= usize::MAX,
+                        //@         cursor <= len,
+                        //@         it_0.index@ > 0 ==> cursor == min_int(ms[it_0.index@ - 1].1 as int, len as int),
+                        //@         it_0.index@ == 0 ==> cursor == 0,
+                        //@         prefix_kept(new_attributions@, inp),
+                        //@         fill_wf(new_attributions@, n0, q, cursor as int, current_author@, ts),
+                        //@         forall|x: int| 0 <= x < cursor ==> (#[trigger] fill_has(new_attributions@, n0, q + x) <==> !moved_has(ms, it_0.index@, x)),
+                        //@         forall|x: int| x >= q + cursor ==> !(#[trigger] fill_has(new_attributions@, n0, x)),
+                        {
+                            //@ let ghost k = it_0.index@;
+                            //@ let ghost before = new_attributions@;
+                            //@ let ghost c_old = cursor;
+                            //@ proof { assert((start, end) == ms[k]); if k > 0 { assert(ms[k - 1].1 < ms[k].0); } }
+                            let clamped_start = start.min(len);
+                            let clamped_end = end.min(len);
+
+                            if cursor < clamped_start {
+                                new_attributions.push(Attribution::new(
+                                    new_pos + cursor,
+                                    new_pos + clamped_start,
+                                    current_author.to_string(),
+                                    ts,
+                                ));
+                            }
+
+                            cursor = cursor.max(clamped_end);
+                            //@ proof {
+                            //@     if new_attributions@.len() > before.len() {
+                            //@         let a = new_attributions@[before.len() as int];
+                            //@         assert(new_attributions@ =~= before.push(a));
+                            //@         assert(new_attributions@.subrange(0, inp.len() as int) =~= before.subrange(0, inp.len() as int));
+                            //@         assert forall|x: int| fill_has(new_attributions@, n0, x) <==> (fill_has(before, n0, x) || a.start <= x < a.end) by { lemma_fill_push(before, n0, a, x); }
+                            //@     }
+                            //@     assert(cursor == min_int(end as int, len as int));
+                            //@     assert forall|x: int| 0 <= x < cursor implies (#[trigger] fill_has(new_attributions@, n0, q + x) <==> !moved_has(ms, k + 1, x)) by {
+                            //@         lemma_moved_step(ms, k, x);
+                            //@         if new_attributions@.len() > before.len() { lemma_fill_push(before, n0, new_attributions@[before.len() as int], q + x); }
+                            //@         if x < c_old {
+                            //@             assert(fill_has(before, n0, q + x) <==> !moved_has(ms, k, x));
+                            //@             assert(x < start);
+                            //@         } else {
+                            //@             assert(!fill_has(before, n0, q + x));
+                            //@             if moved_has(ms, k, x) {
+                            //@                 let i = choose|i: int| 0 <= i < k && (#[trigger] ms[i]).0 <= x < ms[i].1;
+                            //@                 lemma_moved_ends_monotone(ms, i, k - 1);
+                            //@                 assert(false);
+                            //@             }
+                            //@         }
+                            //@     }
+                            //@     assert forall|x: int| x >= q + cursor implies !(#[trigger] fill_has(new_attributions@, n0, x)) by {
+                            //@         if new_attributions@.len() > before.len() { lemma_fill_push(before, n0, new_attributions@[before.len() as int], x); }
+                            //@     }
+                            //@ }
+                        }
+
+                        //@ let ghost before2 = new_attributions@;
+                        //@ let ghost c2 = cursor;
+                        //@ proof {
+                        //@     // after the loop every range has been processed: nothing at or beyond the cursor is covered by a move
+                        //@     assert forall|x: int| c2 <= x < len implies !moved_has(ms, ms.len() as int, x) by {
+                        //@         if moved_has(ms, ms.len() as int, x) { let i = choose|i: int| 0 <= i < ms.len() && (#[trigger] ms[i]).0 <= x < ms[i].1; lemma_moved_ends_monotone(ms, i, ms.len() - 1); }
+                        //@     }
+                        //@ }
+                        if cursor < len {
+                            new_attributions.push(Attribution::new(
+                                new_pos + cursor,
+                                new_pos + len,
+                                current_author.to_string(),
+                                ts,
+                            ));
+                        }
+
+                        //@ proof {
+                        //@     if new_attributions@.len() > before2.len() {
+                        //@         let a = new_attributions@[before2.len() as int];
+                        //@         assert(new_attributions@ =~= before2.push(a));
+                        //@         assert(new_attributions@.subrange(0, inp.len() as int) =~= before2.subrange(0, inp.len() as int));
+                        //@         assert forall|x: int| fill_has(new_attributions@, n0, x) <==> (fill_has(before2, n0, x) || a.start <= x < a.end) by { lemma_fill_push(before2, n0, a, x); }
+                        //@     }
+                        //@     assert forall|x: int| 0 <= x < len implies (#[trigger] fill_has(new_attributions@, n0, q + x) <==> !moved_has(ms, ms.len() as int, x)) by {
+                        //@         if new_attributions@.len() > before2.len() { lemma_fill_push(before2, n0, new_attributions@[before2.len() as int], q + x); }
+                        //@     }
+                        //@ }
+                        new_pos += len;
+                        insertion_idx += 1;
+                        prev_whitespace_delete = false;
+//@     (new_pos, insertion_idx, prev_whitespace_delete, new_attributions)
 //@ }
 //#end
 
